@@ -903,6 +903,9 @@ where
             Some(e) if TrioArc::ptr_eq(&*e, &entry) => KeyHash::new(Arc::clone(e.key()), kh.hash),
             _ => return,
         };
+        // Verification hook: between the stale-op check and the admission.
+        #[cfg(mini_moka_verif)]
+        crate::verif::sp("up.checked");
 
         if self.has_enough_capacity(new_weight, counters) {
             // There are enough room in the cache (or the cache is unbounded).
